@@ -356,9 +356,8 @@ fn format(opt: opt::Opt) -> Result<i32> {
                         };
                     }
                     FormatResult::Diff(diff) => {
-                        if EXIT_CODE.load(Ordering::SeqCst) != 2 {
-                            EXIT_CODE.store(1, Ordering::SeqCst);
-                        }
+                        // Never lower the exit code: an error (2) logged by another thread in the meantime must win
+                        EXIT_CODE.fetch_max(1, Ordering::SeqCst);
 
                         UNFORMATTED_FILE_COUNT.fetch_add(1, Ordering::SeqCst);
 
